@@ -226,6 +226,35 @@ func Run(c *core.Ctx) {
 			}
 		}
 	}
+	// several tags at once, with values that themselves look like tags of the same map (the result
+	// must not depend on map iteration order: each map is tried many times)
+	for _, p := range []string{"$a.$b", "$b.$a", "x.$a.$b", "$a.$b.$x", "$a.y.$b", "$x.$a"} {
+		for _, m := range []map[string]string{
+			{"a": "$b", "b": "x"}, {"a": "$b", "b": "$a"}, {"a": "$x", "x": "1", "b": "$a"}, {"b": "$a.$a", "a": "q"}, {"a": "v", "b": "w", "x": "$b"},
+		} {
+			for rep := 0; rep < 12; rep++ {
+				var got res.Pattern
+				if pv := core.Catch(func() { got = res.Pattern(p).ReplaceTags(m) }); pv != nil {
+					c.Violate(core.Violation{Signature: map[string]string{"engine": "pattern", "kind": "panic:replace", "p": p}, Text: fmt.Sprintf("panic in ReplaceTags(%q,%v): %v", p, m, pv), Replay: rec{"p": p, "m": m}})
+					break
+				}
+				recs = append(recs, rec{"op": "replace", "ps": p, "p": core.Chars(p), "m": pairs(m), "ms": m, "got": core.Chars(string(got))})
+				nrep++
+			}
+		}
+	}
+	// extraction substituted back: names whose tokens look like tags
+	for _, q := range []pr{{"$a.$b", "$b.x"}, {"$a.$b", "$b.$a"}, {"$x.$a.$b", "$a.$b.$x"}, {"$a.b.$b", "$b.b.$a"}} {
+		for rep := 0; rep < 12; rep++ {
+			vals, ok := res.Pattern(q.p).Values(q.n)
+			if !ok {
+				break
+			}
+			got := res.Pattern(q.p).ReplaceTags(vals)
+			recs = append(recs, rec{"op": "replace", "ps": q.p, "p": core.Chars(q.p), "m": pairs(vals), "ms": vals, "got": core.Chars(string(got))})
+			nrep++
+		}
+	}
 	// the ID transformer over several patterns (tag in the middle, literal tokens containing "$")
 	for _, pat := range []string{"lib.book.$id", "lib.$id.page", "a$id.$id", "lib.b$id", "x.y$id"} {
 		for _, id := range []string{"42", "a", "$q", "id"} {
